@@ -8,7 +8,7 @@ MAXPER=${1:-40}
 OUT=${MUT_OUT:-/var/tmp/mutation.tsv}
 wt=/var/tmp/mut-wt
 cd /verif
-[ -x .cache/mutate ] || (cd tools/mutate && go build -o /verif/.cache/mutate .)
+[ -x /verif/.cache/mutate ] || (cd tools/mutate && go build -o /verif/.cache/mutate .)
 rm -rf $wt; git -C /repo worktree prune; git -C /repo worktree add --detach $wt HEAD -q || exit 2
 flaky='TestPublishSubscribe_persistent|TestPublishSubscribe_race_condition_on_subscribe|TestMapExpiringKeyRepositoryCleanup|TestRequestReply_parallel_same_handler'
 # file | upstream test packages | properties
@@ -53,7 +53,7 @@ echo -e "file\tmutant\top\tline\tdescription\tverdict\tdetail" > $OUT
 echo "$targets" | while IFS='|' read -r file pkgs props; do
   [ -z "$file" ] && continue
   md=/var/tmp/mutants/$(echo $file | tr '/' '_')
-  rm -rf $md; .cache/mutate -file /repo/$file -out $md >/dev/null
+  rm -rf $md; /verif/.cache/mutate -file /repo/$file -out $md >/dev/null
   total=$(wc -l < $md/index.tsv)
   step=$(( (total + MAXPER - 1) / MAXPER )); [ $step -lt 1 ] && step=1
   while IFS=$'\t' read -r n op line desc; do
